@@ -7,15 +7,17 @@ Obligations: coq/Props/C19.v (model coq/Model/Shim.v, spec coq/Proofs/ShimSpec.v
 The check has three legs.
  (1) correspondence, absolute step: the model's `translate` / `dt_translate` is compared with
      `Dimension.translate_element_id` on every spelling of every item plus stale and malformed
-     identifiers; the model's `shim_xf` (the rewritten transforms dict, incl. the exception and
-     the half-rewritten dict an exception leaves behind) is compared with the caller's dict after
-     the implementation ran; the model's `consume` (payload per element, items an id list
-     mentions) is compared with the implementation's Element.is_hidden / label and with the
+     identifiers; the model's `shim_xf` (the translated transforms dict, or the exception) is
+     compared with the dict the partition's Dimension object USES (Dimension._dimension_transforms_dict,
+     wrapped: a missing attribute is reported as no-failing-input-found) - since /repo 51c19c01 the
+     caller's dict is not rewritten any more, and it is additionally required to be deep-equal to its
+     pristine copy after the implementation ran, also when the translation raises; the model's
+     `consume` (payload per element, items an id list mentions) is compared with the implementation's Element.is_hidden / label and with the
      displayed order.
  (2) relational oracle on the implementation alone: the same transforms written with other
      spellings that the theorems of Props/C19.v declare equivalent (decided by running the proved
      decision procedure `wfb` / the model inside Coq) must give identical labels, codes, order and
-     values and identical rewritten dicts - slots: hide, rename, explicit order, fixed top/bottom,
+     values and identical translated dicts - slots: hide, rename, explicit order, fixed top/bottom,
      sort by opposing element / opposing (derived) insertion.
  (3) thorough tier: exhaustive small scope, <= 4 items x every spelling x every slot.
 """
@@ -172,6 +174,27 @@ def impl_outputs(case, transforms, extra_value=True):
             g = impl.get(part, nme)
             out["%d.%s" % (pi, nme)] = ("ok", norm_value(g[1])) if g[0] == "ok" else ("exc", g[1], g[2])
     return out, tr
+
+
+def impl_used_dict(case, transforms):
+    """The translated transforms dict the dimension under test USES (since /repo 51c19c01 the caller's
+    dict is no longer rewritten in place; the dimension works on its own copy, observable only through
+    the private Dimension._dimension_transforms_dict of the partition's Dimension object).
+    -> ("ok", dict) | ("exc", ExceptionTypeName) | ("missing-attr", msg)"""
+    resp = copy.deepcopy(case["response"])
+    tr = copy.deepcopy(transforms)
+    try:
+        part = impl.Cube(resp, transforms=tr).partitions[0]
+        dims = part._dimensions
+    except AttributeError as e:
+        return ("missing-attr", str(e))
+    except Exception as e:  # noqa
+        return ("exc", type(e).__name__)
+    dim = dims[0] if (case["akey"] == "rows_dimension" or len(dims) == 1) else dims[1]
+    if not hasattr(type(dim), "_dimension_transforms_dict"):
+        return ("missing-attr", "Dimension._dimension_transforms_dict")
+    r = impl.guarded(lambda: dim._dimension_transforms_dict)
+    return ("ok", r[1]) if r[0] == "ok" else ("exc", r[1])
 
 
 # ------------------------------------------------------------------------------------
@@ -557,7 +580,8 @@ def check_job(rep, job):
     outs = []
     for vi, tr in enumerate(trs):
         out, after = impl_outputs(case, tr)
-        outs.append((out, after))
+        used = impl_used_dict(case, tr)
+        outs.append((out, used))
         mt, mexc, mview = job["model"][vi]
         rcase = replayable(case, tr)
         nontrivial = vi > 0 or any(not U.py_eq(x, U.aliases(d)[k]) for k, x in all_refs(job["slots"]) if k is not None)
@@ -570,12 +594,32 @@ def check_job(rep, job):
         label_read = "0.column_labels" if akey == "columns_dimension" else "0.row_labels"
         got_label = out.get(label_read, out.get("partitions"))
         impl_raised = got_label is None or got_label[0] == "exc"
-        # (a) the rewriting of the caller's dict
-        canon = U.canon_xf(after.get(akey), pay)
-        if canon != mt:
-            rep.violation("impl-vs-model", rcase, {"what": "rewritten transforms dict",
-                          "impl": canon, "model": mt, "model_exc": mexc},
-                          {"what": "shim-dict", "cause": cause})
+        # (a) the caller's dict is deep-equal to its pristine copy (a translation that raises leaves
+        #     it untouched as well); the translated dict is the one the dimension uses
+        if not U.same_json(after, tr):
+            rep.violation("impl-vs-model", rcase, {"what": "the caller's transforms dict is no longer "
+                          "deep-equal to its pristine copy", "after": core.jsonable(after.get(akey)),
+                          "given": core.jsonable(tr.get(akey)), "model_exc": mexc},
+                          {"what": "caller-dict-changed", "cause": cause})
+        if used[0] == "ok" and not U.same_json(U.untranslated_part(used[1]),
+                                               U.untranslated_part(tr.get(akey))):
+            rep.violation("impl-vs-model", rcase, {"what": "the untranslated part of the dict the dimension "
+                          "uses differs from the caller's", "used": core.jsonable(used[1]),
+                          "given": core.jsonable(tr.get(akey))}, {"what": "shim-dict-rest", "cause": cause})
+        if used[0] == "missing-attr":
+            rep.violation("impl-vs-model", rcase, {"what": "cannot observe the translated transforms dict",
+                          "detail": used[1]}, {"what": "shim-dict-unobservable", "cause": cause},
+                          failing_input=False)
+        elif used[0] == "ok" and mexc is None:
+            canon = U.canon_xf(used[1], pay)
+            if canon != mt:
+                rep.violation("impl-vs-model", rcase, {"what": "translated transforms dict",
+                              "impl": canon, "model": mt, "model_exc": mexc},
+                              {"what": "shim-dict", "cause": cause})
+        elif (used[0] == "ok") != (mexc is None):
+            rep.violation("impl-vs-model", rcase, {"what": "translated transforms dict: exception",
+                          "impl": used if used[0] != "ok" else "ok", "model_exc": mexc},
+                          {"what": "shim-exception", "cause": cause})
         if (mexc is not None) != impl_raised or (impl_raised and mexc and got_label[1] != mexc):
             rep.violation("impl-vs-model", rcase, {"what": "exception", "impl": got_label,
                           "model_exc": mexc}, {"what": "shim-exception", "cause": cause})
@@ -626,11 +670,11 @@ def check_job(rep, job):
                                   "back to payload order", "impl": out.get(o_read), "payload": pout.get(o_read)},
                                   {"what": "opposing-stale", "cause": cause})
     # (d) relational oracle: all spellings give identical outputs and identical rewritten dicts
-    base_out, base_after = outs[0]
+    base_out, base_used = outs[0]
     if any(v[0] == "exc" for v in base_out.values()):
         return
     for vi in range(1, len(outs)):
-        out, after = outs[vi]
+        out, used = outs[vi]
         if any(v[0] == "exc" for v in out.values()):
             continue
         diff = first_output_diff(base_out, out)
@@ -643,11 +687,12 @@ def check_job(rep, job):
                           {"read": diff[0], "base": diff[1], "variant": diff[2],
                            "slots": slot_names(job["slots"]), "wf": case["wf"]},
                           {"what": "relational", "wf": case["wf"]})
-        elif U.canon_xf(after.get(akey), pay) != U.canon_xf(base_after.get(akey), pay) \
+        elif used[0] == "ok" and base_used[0] == "ok" \
+                and U.canon_xf(used[1], pay) != U.canon_xf(base_used[1], pay) \
                 and job["slots"].get("keymode") in (None,):
             rep.violation("spellings-differ", replayable(case, trs[vi]),
-                          {"what": "rewritten dicts differ", "base": base_after.get(akey),
-                           "variant": after.get(akey)}, {"what": "relational-dict", "wf": case["wf"]})
+                          {"what": "translated dicts differ", "base": core.jsonable(base_used[1]),
+                           "variant": core.jsonable(used[1])}, {"what": "relational-dict", "wf": case["wf"]})
     for s in slot_names(job["slots"]):
         rep.dist("slot=" + s)
     if job["malformed"]:
@@ -738,8 +783,103 @@ def g_dtdim(els):
     return core.g_list(parts)
 
 
+MISSING_LAYOUTS = ["none", "first", "middle", "last", "several", "first", "middle", "several"]
+DT_SLOTS = ("hide", "rename", "explicit", "fixed-top", "fixed-bottom", "opposing")
+
+
+def layout_missing(rng, dt):
+    """Re-arrange the elements of a generated datetime variable (before any respondent answers): the
+    missing ('No Data', value {"?": -1}) element absent / first / in the middle / last / several of
+    them; ids are the payload positions (as the server numbers them), now and then sparse ascending
+    ids (an id is the element's own field, not an index).  -> (layout, ids kind)"""
+    valid = [e for e in dt.elements if not isinstance(e["value"], dict)]
+    n = len(valid)
+    where = rng.choice(MISSING_LAYOUTS)
+    if where == "middle" and n < 2:
+        where = "first"
+    slots = {"none": [], "first": [0], "last": [n],
+             "middle": [rng.randint(1, max(1, n - 1))],
+             "several": sorted(rng.choice(range(n + 1)) for _ in range(rng.randint(2, 3)))}[where]
+    els, n_missing = [], 0
+    for pos in range(n + 1):
+        for _ in range(slots.count(pos)):
+            els.append({"value": {"?": -1 if n_missing == 0 else -8}, "missing": True})
+            n_missing += 1
+        if pos < n:
+            els.append({"value": valid[pos]["value"], "missing": False})
+    ids_kind = "positions"
+    ids = list(range(len(els)))
+    if rng.random() < 0.15:
+        ids_kind = "sparse"
+        ids = sorted(rng.sample(range(0, 3 * len(els) + 3), len(els)))
+    for e, i in zip(els, ids):
+        e["id"] = i
+    dt.elements = [{"id": e["id"], "value": e["value"], "missing": e["missing"]} for e in els]
+    return where, ids_kind
+
+
+def dt_transforms(case, slot, x, stale, others):
+    akey, okey = case["akey"], case["okey"]
+    if slot == "hide":
+        return {akey: {"elements": {x: {"hide": True}, stale: {"hide": True}}}}
+    if slot == "rename":
+        return {akey: {"elements": {x: {"name": "Renamed"}}}}
+    if slot == "explicit":
+        return {akey: {"order": {"type": "explicit", "element_ids": [stale, x] + others[:1]}}}
+    if slot == "fixed-top":
+        return {akey: {"order": {"type": "label", "direction": "descending", "fixed": {"top": [x]}}}}
+    if slot == "fixed-bottom":
+        return {akey: {"order": {"type": "label", "direction": "ascending", "fixed": {"bottom": [x]}}}}
+    if slot == "opposing":
+        if not okey:
+            return None
+        return {okey: {"order": {"type": "opposing_element", "element_id": x,
+                                 "measure": "col_percent" if okey == "rows_dimension" else "row_percent"}}}
+    raise ValueError(slot)
+
+
+def dt_absolute_check(slot, rank, other_rank, base_order):
+    """What the display order / labels of the datetime dimension must be when element `rank`
+    (offset among the valid elements) is referenced in `slot` - by whatever spelling."""
+    if slot == "hide":
+        return ["order", [r for r in base_order if r != rank]]
+    if slot == "rename":
+        return ["label", base_order.index(rank), "Renamed"]
+    if slot == "explicit":
+        head = [rank] + ([other_rank] if other_rank is not None else [])
+        return ["order", head + [r for r in base_order if r not in head]]
+    if slot == "fixed-top":
+        return ["first", rank]
+    if slot == "fixed-bottom":
+        return ["last", rank]
+    return None
+
+
+def dt_absolute_fail(out, akey, check):
+    """-> None | description.  `out` = impl_outputs reads."""
+    if check is None:
+        return None
+    axis = "column" if akey == "columns_dimension" else "row"
+    order = out.get("0.%s_order" % axis)
+    labels = out.get("0.%s_labels" % axis)
+    if order is None or order[0] != "ok" or labels is None or labels[0] != "ok":
+        return {"what": "read failed", "order": order, "labels": labels}
+    o, lab = order[1][:-1], labels[1][:-1]
+    kind = check[0]
+    if kind == "order" and o != check[1]:
+        return {"what": "display order", "impl": o, "expected": check[1]}
+    if kind == "first" and (not o or o[0] != check[1]):
+        return {"what": "fixed top element is not first", "impl": o, "expected_first": check[1]}
+    if kind == "last" and (not o or o[-1] != check[1]):
+        return {"what": "fixed bottom element is not last", "impl": o, "expected_last": check[1]}
+    if kind == "label" and (check[1] >= len(lab) or lab[check[1]] != check[2]):
+        return {"what": "renamed label", "impl": lab, "expected_at": check[1], "expected": check[2]}
+    return None
+
+
 def run_datetime(rep, rng, n):
-    stats = {"cases": 0, "translate_evals": 0, "relational": 0}
+    stats = {"cases": 0, "translate_evals": 0, "relational": 0, "absolute": 0,
+             "relational_on_element_after_missing": 0}
     cases, terms = [], []
     for k in range(n):
         layout = rng.choice(["dt_x_cat", "dt_x_cat", "cat_x_dt", "dt"])
@@ -749,6 +889,7 @@ def run_datetime(rep, rng, n):
             for j, el in enumerate(dt.elements):
                 if not isinstance(el["value"], dict):
                     el["value"] = str(2015 + j)
+        where, ids_kind = layout_missing(rng, dt)
         cat = gen.make_cat(rng, "c", n_valid=rng.randint(1, 3), n_missing=0)
         variables, aliases = {"dt_x_cat": ([dt, cat], ["d", "c"]), "cat_x_dt": ([cat, dt], ["c", "d"]),
                               "dt": ([dt], ["d"])}[layout]
@@ -757,15 +898,15 @@ def run_datetime(rep, rng, n):
         cube_dim = 1 if layout == "cat_x_dt" else 0
         els = resp["result"]["dimensions"][cube_dim]["type"]["elements"]
         bat = []
-        for el in els:
-            bat += [el["id"], str(el["id"])]
+        for pos, el in enumerate(els):
+            bat += [el["id"], str(el["id"]), pos, str(pos)]
             if not isinstance(el["value"], dict):
                 bat.append(el["value"])
-        bat += [99, "99", "zz", None, "", "-1", -1, "007", "2010-13"]
+        bat += [len(els), str(len(els)), 99, "99", "zz", None, "", "-1", -1, "007", "2010-13"]
         case = {"k": k, "layout": layout, "response": resp, "cube_dim": cube_dim, "els": els,
                 "akey": "columns_dimension" if layout == "cat_x_dt" else "rows_dimension",
                 "okey": {"dt_x_cat": "columns_dimension", "cat_x_dt": "rows_dimension", "dt": None}[layout],
-                "battery": bat, "values": "counts"}
+                "battery": bat, "values": "counts", "missing_layout": where, "ids_kind": ids_kind}
         cases.append(case)
         terms.append("r_lst r_tval (map (dt_translate %s) %s)" % (g_dtdim(els), U.g_idents(bat)))
     results, _secs = core.run_coq_cases(PID, DT_IMPORTS, terms, tag="dt") if terms else ([], 0)
@@ -789,71 +930,88 @@ def run_datetime(rep, rng, n):
         stats["cases"] += 1
         rep.count_case({"r": case["response"], "dt": True}, True)
         rep.dist("layout=" + case["layout"])
-        # relational: position id (int / str) vs value, slots hide + explicit order + opposing
+        rep.dist("dt-missing-element=" + case["missing_layout"])
+        rep.dist("dt-ids=" + case["ids_kind"])
+        # relational: position id (int / str) vs value, EVERY valid element x every slot
         valid = [el for el in case["els"] if not isinstance(el["value"], dict)]
         if not valid:
             continue
-        el = rng.choice(valid)
-        spellings = [el["value"], el["id"], str(el["id"])]
-        others = [e["value"] for e in valid if e is not el]
         stale = rng.choice([99, "zz", "2031-01"])
-        if missing_ids:
-            # the position id of the missing ('No Data') element matches nothing: it must be ignored
+        base_out, _ = impl_outputs(case, {})
+        axis = "column" if case["akey"] == "columns_dimension" else "row"
+        base_order = base_out.get("0.%s_order" % axis)
+        base_order = base_order[1][:-1] if base_order and base_order[0] == "ok" else None
+
+        def rcase_of(tr, **kw):
+            return dict({"response": case["response"], "transforms": tr, "kind": "datetime",
+                         "layout": case["layout"], "akey": case["akey"], "okey": case["okey"],
+                         "cube_dim": case["cube_dim"], "values": "counts"}, **kw)
+
+        el0 = rng.choice(valid)
+        for mid in missing_ids:
+            # the position id of a missing ('No Data') element matches nothing: it must be ignored
             # (no raise, same output as without the reference)
-            mid = missing_ids[0]
             for sp in (mid, str(mid)):
                 for tr, plain in (({case["akey"]: {"elements": {sp: {"hide": True}}}}, {}),
-                                  ({case["akey"]: {"order": {"type": "explicit", "element_ids": [sp, el["id"]]}}},
-                                   {case["akey"]: {"order": {"type": "explicit", "element_ids": [el["id"]]}}})):
+                                  ({case["akey"]: {"order": {"type": "explicit", "element_ids": [sp, el0["id"]]}}},
+                                   {case["akey"]: {"order": {"type": "explicit", "element_ids": [el0["id"]]}}})):
                     out, _after = impl_outputs(case, tr)
                     pout, _ = impl_outputs(case, plain)
                     raised = {k2: v for k2, v in out.items() if v[0] == "exc"}
                     rep.cov["evaluations"] += 1
                     stats["missing_position"] = stats.get("missing_position", 0) + 1
-                    rcase = {"response": case["response"], "transforms": tr, "kind": "datetime",
-                             "layout": case["layout"], "akey": case["akey"], "okey": case["okey"],
-                             "cube_dim": case["cube_dim"], "values": "counts"}
                     if raised:
-                        rep.violation("impl-raises", rcase, {"raised": raised, "slot": "missing-position"},
+                        rep.violation("impl-raises", rcase_of(tr), {"raised": raised, "slot": "missing-position"},
                                       {"cause": "datetime"})
                     elif first_output_diff(out, pout) is not None:
-                        rep.violation("spellings-differ", dict(rcase, transforms_2=plain, kind="relational"),
+                        rep.violation("spellings-differ", rcase_of(tr, transforms_2=plain, kind="relational"),
                                       {"what": "reference to the missing element's position is not ignored",
                                        "diff": first_output_diff(out, pout)}, {"what": "relational-datetime"})
-        for slot in ("hide", "explicit", "opposing"):
-            outs = []
-            for x in spellings:
-                if slot == "hide":
-                    tr = {case["akey"]: {"elements": {x: {"hide": True}, stale: {"hide": True}}}}
-                elif slot == "explicit":
-                    tr = {case["akey"]: {"order": {"type": "explicit",
-                                                   "element_ids": [stale, x] + others[:1]}}}
-                elif slot == "opposing":
-                    if not case["okey"]:
+        first_missing_pos = min([p for p, e in enumerate(case["els"]) if isinstance(e["value"], dict)] or [10 ** 6])
+        for rank, el in enumerate(valid):
+            pos = case["els"].index(el)
+            after_missing = pos > first_missing_pos
+            spellings = [("value", el["value"]), ("int", el["id"]), ("str", str(el["id"]))]
+            others = [e["value"] for e in valid if e is not el]
+            other_rank = valid.index([e for e in valid if e is not el][0]) if others else None
+            for slot in DT_SLOTS:
+                check = dt_absolute_check(slot, rank, other_rank, base_order) if base_order is not None else None
+                outs = []
+                for sname, x in spellings:
+                    tr = dt_transforms(case, slot, x, stale, others)
+                    if tr is None:
                         continue
-                    tr = {case["okey"]: {"order": {"type": "opposing_element", "element_id": x,
-                                                   "measure": "col_percent" if case["okey"] == "rows_dimension" else "row_percent"}}}
-                out, after = impl_outputs(case, tr)
-                raised = {k2: v for k2, v in out.items() if v[0] == "exc"}
-                rcase = {"response": case["response"], "transforms": tr, "kind": "datetime",
-                         "layout": case["layout"], "akey": case["akey"], "okey": case["okey"],
-                         "cube_dim": case["cube_dim"], "values": "counts"}
-                if raised:
-                    rep.violation("impl-raises", rcase, {"raised": raised, "slot": slot},
-                                  {"cause": "datetime"})
-                else:
-                    outs.append((tr, out))
-                rep.cov["evaluations"] += 1
-            if True:
-                for tr, out in outs[1:]:
+                    out, after = impl_outputs(case, tr)
+                    raised = {k2: v for k2, v in out.items() if v[0] == "exc"}
+                    rep.cov["evaluations"] += 1
+                    if raised:
+                        rep.violation("impl-raises", rcase_of(tr), {"raised": raised, "slot": slot},
+                                      {"cause": "datetime"})
+                        continue
+                    outs.append((sname, tr, out))
+                    # absolute: the reference (whatever its spelling) acts on THIS element
+                    bad = dt_absolute_fail(out, case["akey"], check)
+                    stats["absolute"] += 1 if check is not None else 0
+                    if bad is not None:
+                        rep.violation("reference-acts-on-wrong-element",
+                                      rcase_of(tr, kind="datetime-absolute", check=check),
+                                      dict(bad, slot=slot, spelling=sname, reference=x, element_rank=rank,
+                                           element_id=el["id"], after_missing_element=after_missing,
+                                           missing_layout=case["missing_layout"]),
+                                      {"what": "absolute-datetime"})
+                for sname, tr, out in outs[1:]:
                     stats["relational"] += 1
-                    diff = first_output_diff(outs[0][1], out)
+                    rep.dist("dt-relational:slot=" + slot)
+                    if after_missing:
+                        stats["relational_on_element_after_missing"] += 1
+                        rep.dist("dt-relational:element-after-missing:%s-vs-value" % sname)
+                    diff = first_output_diff(outs[0][2], out)
                     if diff is not None:
-                        rep.violation("spellings-differ", {"response": case["response"],
-                                      "transforms": outs[0][0], "transforms_2": tr, "kind": "relational",
-                                      "layout": case["layout"], "akey": case["akey"], "okey": case["okey"],
-                                      "cube_dim": case["cube_dim"], "values": "counts"},
-                                      {"read": diff[0], "base": diff[1], "variant": diff[2], "slot": slot},
+                        rep.violation("spellings-differ", rcase_of(outs[0][1], transforms_2=tr, kind="relational"),
+                                      {"read": diff[0], "base": diff[1], "variant": diff[2], "slot": slot,
+                                       "spelling": sname, "element_id": el["id"], "value": el["value"],
+                                       "after_missing_element": after_missing,
+                                       "missing_layout": case["missing_layout"]},
                                       {"what": "relational-datetime"})
     return stats
 
@@ -885,6 +1043,26 @@ def replay(path):
         diff = first_output_diff(a, b)
         if diff is not None:
             fails.append(("spellings-differ", diff))
+    elif kind == "datetime" and "ident" in case:
+        # model-vs-implementation on one identifier of a datetime dimension
+        els = case["response"]["result"]["dimensions"][case["cube_dim"]]["type"]["elements"]
+        term = "r_lst r_tval (map (dt_translate %s) %s)" % (g_dtdim(els), U.g_idents([case["ident"]]))
+        res, _ = core.run_coq_cases(PID, DT_IMPORTS, [term], tag="replay")
+        dec = U.Dec(res[0])
+        m = dec.list(dec.tval)[0]
+        m2 = ("ok", m[1]) if m[0] == "id" else ("ok", ("obj",))
+        got = impl_translate(impl.Cube(copy.deepcopy(case["response"])).dimensions[case["cube_dim"]]
+                             .apply_transforms({}), case["ident"])
+        if got != m2:
+            fails.append(("datetime translate", case["ident"], got, m2))
+    elif kind == "datetime-absolute":
+        out, _ = impl_outputs(case, case["transforms"])
+        raised = {k: x for k, x in out.items() if x[0] == "exc"}
+        if raised:
+            fails.append(("raises", raised))
+        bad = dt_absolute_fail(out, case["akey"], case.get("check"))
+        if bad is not None:
+            fails.append(("reference-acts-on-wrong-element", bad))
     elif kind == "translate":
         dim = impl_dim(case)
         got = impl_translate(dim, case.get("ident"))
@@ -905,8 +1083,13 @@ def replay(path):
             term = "let r := shim_xf %s %s in r_shim r" % (U.g_adim(case["adim"]), U.g_xf(td, pay))
             res, _ = core.run_coq_cases(PID, IMPORTS, [term], tag="replay")
             mt, mexc = U.Dec(res[0]).shim()
-            if U.canon_xf(after.get(case["akey"]), pay) != U.model_xf_canon(mt):
-                fails.append(("shim-dict", after.get(case["akey"]), mt))
+            used = impl_used_dict(case, case["transforms"])
+            if used[0] == "ok" and mexc is None and U.canon_xf(used[1], pay) != U.model_xf_canon(mt):
+                fails.append(("shim-dict", used[1], mt))
+            if (used[0] == "ok") != (mexc is None):
+                fails.append(("shim-exception", used, mexc))
+            if not U.same_json(after, case["transforms"]):
+                fails.append(("caller-dict-changed", after.get(case["akey"]), td))
             what = v["detail"].get("what")
             if what in ("element transform", "display order", "exception") and not fails:
                 fails.append(("model-vs-impl detail (re-run the check)", what))
